@@ -326,7 +326,8 @@ example : (runCode hiveLib (conc init) demo).2 = (srun sinit demo).2.map outVal 
   (C10_code_refines_run demo (by decide)).1
 
 /-- The thread-safe wrapper delegates every method to the inner method of the same name with its own parameters in
-their order; the constructors initialise (`newList` calls `Init`, which is the model's initial state) and `NewList`
+their order; every method of the file has a pointer receiver (a value receiver on the wrapper would lock a copy of the
+mutex — the lock skeleton does not show receivers); the constructors initialise (`newList` calls `Init`, which is the model's initial state) and `NewList`
 hands out the lock-free list only for `lockFree[0] == true`. -/
 theorem C10_code_wrappers :
     hive_wrappers = ["Init -> Init()", "Front -> Front()", "Back -> Back()", "PushFront -> PushFront(p0)",
@@ -335,6 +336,7 @@ theorem C10_code_wrappers :
       "MoveBefore -> MoveBefore(p0,p1)", "MoveAfter -> MoveAfter(p0,p1)", "PushBackList -> PushBackList(p0)",
       "PushFrontList -> PushFrontList(p0)", "ForEach -> ForEach(p0)", "ForEachReverse -> ForEachReverse(p0)",
       "Range -> Range(p0)", "RangeReverse -> RangeReverse(p0)", "Values -> Values()", "Len -> Len()"] ∧
+    hive_value_receivers = [] ∧
     hive_constructors = ["func newList", "{", "l := new(list[T])", "l.Init()", "return l", "}",
       "func newThreadSafeList", "{", "return &threadSafeList[T]{", "list: newList[T](),", "}", "}",
       "func NewList", "{", "if len(lockFree) > 0 && lockFree[0] {", "return newList[T]()", "}",
